@@ -1003,7 +1003,8 @@ func ruleTextHex(c *Ctx) {
 		n := arr.Len()
 		key := pkgShort(pk.Types) + "." + funcName(fd)
 		// p[:] / (*p)[:] of the receiver, unbounded
-		wholeRecv := func(e ast.Expr) (whole bool, ofRecv bool) {
+		var wholeRecv func(e ast.Expr) (whole bool, ofRecv bool)
+		wholeRecv = func(e ast.Expr) (whole bool, ofRecv bool) {
 			sl, ok := ast.Unparen(e).(*ast.SliceExpr)
 			if !ok {
 				return false, false
@@ -1021,7 +1022,52 @@ func ruleTextHex(c *Ctx) {
 		var problems []string
 		decoded, encoded := false, false
 		usesHexDecode := false
+		// the work handed to a function of the package with the whole receiver (decodeFixedHex(p[:], text)): that
+		// function is read with its slice parameter standing for the receiver, and 2*len(dst) for 2*N
+		body := fd.Body
+		var dstParam types.Object
 		ast.Inspect(fd.Body, func(k ast.Node) bool {
+			call, ok := k.(*ast.CallExpr)
+			if !ok || dstParam != nil {
+				return true
+			}
+			f := calleeFunc(info, call)
+			if f == nil || f.Pkg() != pk.Types {
+				return true
+			}
+			for ai, a := range call.Args {
+				if whole, of := wholeRecv(a); of && whole {
+					if hd := declOfFunc(pk, f); hd != nil && hd.Body != nil && hd.Recv == nil {
+						i := 0
+						for _, fl := range hd.Type.Params.List {
+							for _, nm := range fl.Names {
+								if i == ai {
+									dstParam = info.Defs[nm]
+									body = hd.Body
+								}
+								i++
+							}
+						}
+					}
+				}
+			}
+			return true
+		})
+		if dstParam != nil {
+			inner := wholeRecv
+			wholeRecv = func(e ast.Expr) (bool, bool) {
+				if id, ok := ast.Unparen(e).(*ast.Ident); ok && info.ObjectOf(id) == dstParam {
+					return true, true
+				}
+				if sl, ok := ast.Unparen(e).(*ast.SliceExpr); ok {
+					if id, ok := ast.Unparen(sl.X).(*ast.Ident); ok && info.ObjectOf(id) == dstParam {
+						return sl.Low == nil && sl.High == nil && sl.Max == nil, true
+					}
+				}
+				return inner(e)
+			}
+		}
+		ast.Inspect(body, func(k ast.Node) bool {
 			call, ok := k.(*ast.CallExpr)
 			if !ok {
 				return true
@@ -1072,7 +1118,7 @@ func ruleTextHex(c *Ctx) {
 		if usesHexDecode {
 			// the length test: len(text) against a constant, which must be 2*N
 			found := false
-			ast.Inspect(fd.Body, func(k ast.Node) bool {
+			ast.Inspect(body, func(k ast.Node) bool {
 				be, ok := k.(*ast.BinaryExpr)
 				if !ok {
 					return true
@@ -1081,6 +1127,30 @@ func ruleTextHex(c *Ctx) {
 				case token.EQL, token.NEQ, token.LSS, token.GTR, token.LEQ, token.GEQ:
 				default:
 					return true
+				}
+				// in a helper: len(text) against 2*len(dst)
+				if dstParam != nil && (be.Op == token.EQL || be.Op == token.NEQ) {
+					l, okL := exprPoly(info, be.X, nil, nil, 0)
+					r, okR := exprPoly(info, be.Y, nil, nil, 0)
+					if okL && okR {
+						d := polyAdd(l, r, -1)
+						want := "len(" + dstParam.Name() + ")"
+						if len(d) == 2 {
+							var other string
+							for a := range d {
+								if a != want {
+									other = a
+								}
+							}
+							if strings.HasPrefix(other, "len(") && d[want] != 0 {
+								found = true
+								if !(d[want] == -2*d[other]) {
+									problems = append(problems, "the text length is tested with `"+types.ExprString(be)+"`, a value of n bytes has exactly 2n hex digits")
+								}
+								return true
+							}
+						}
+					}
 				}
 				for _, pair := range [][2]ast.Expr{{be.X, be.Y}, {be.Y, be.X}} {
 					call, ok := ast.Unparen(pair[0]).(*ast.CallExpr)
@@ -1113,7 +1183,7 @@ func ruleTextHex(c *Ctx) {
 			}
 		}
 		// a manual prefix strip: text[k:] with k == 2, under a test of the first two characters
-		ast.Inspect(fd.Body, func(k ast.Node) bool {
+		ast.Inspect(body, func(k ast.Node) bool {
 			as, ok := k.(*ast.AssignStmt)
 			if !ok || len(as.Lhs) != 1 || len(as.Rhs) != 1 {
 				return true
